@@ -12,8 +12,8 @@ from . import _eval as E
 
 ID = "C06"
 SETS = {
-    "quick": ["U1L_all", "U1K3", "R2K", "P:P0q", "P:P1q", "P:P3q", "P:P4q"],
-    "thorough": ["U1L_all", "U1K3", "U2K", "S3K4", "P:P0", "P:P1", "P:P3", "P:P4"],
+    "quick": ["U1L_all", "U1K3", "R2K", "P:P0q", "P:P1q", "P:P3q", "P:P4q", "P:P6q"],
+    "thorough": ["U1L_all", "U1K3", "U2K", "S3K4", "P:P0", "P:P1", "P:P3", "P:P4", "P:P6"],
 }
 WR = {"quick": (2, 2), "thorough": (2, 3)}
 STEP = 40
@@ -126,9 +126,10 @@ def container_variants(term, ns, v):
 
 
 def nonmembers(lit):
-    """values of the same leaf kinds that are not members (typed membership aside: `==`-non-members only)"""
-    cands = [3, 0, "z", "", "2", 2.5, False, None]
-    return [c for c in cands if not any(c == m for m in lit.members)]
+    """values of the same leaf kinds that are not members; membership is typed (typing distinguishes Literal[1] from
+    Literal[True]): 1, 1.0 and True are three different candidates"""
+    cands = [3, 0, 1, 2, "z", "", "2", "a", 2.5, 1.0, 0.0, False, True, None]
+    return [c for c in cands if not any(c == m and type(c) is type(m) for m in lit.members)]
 
 
 def judge(prog, term, v, res, case, label="v"):
